@@ -1,0 +1,17 @@
+//go:build verif
+
+package keeper
+
+import sdk "github.com/cosmos/cosmos-sdk/types"
+
+// VerifFailAfterDequeue, when set by the simulation harness, is asked right after the nonces of the selected members have
+// been taken from their queues whether the rest of the signing creation (commitment, binding factors, public nonces) is to
+// fail. It stands for the error returns of those steps, which no message sequence reaches at will.
+var VerifFailAfterDequeue func(ctx sdk.Context) error
+
+func failAfterDequeue(ctx sdk.Context) error {
+	if VerifFailAfterDequeue != nil {
+		return VerifFailAfterDequeue(ctx)
+	}
+	return nil
+}
